@@ -97,6 +97,26 @@ theorem C08_text_examples :
     Parse.textVerdict "proto a\nmessage M { bool type = 1 }\n" = "accept" := by
   refine ⟨?_, ?_, ?_, ?_, ?_, ?_, ?_, ?_, ?_, ?_⟩ <;> decide +kernel
 
+/-- the order of `push_member`: a statement whose name is already taken in its scope is a duplicate definition, whether or
+    not the scope would also have refused that kind of member -/
+theorem C08_duplicate_before_placement (c : Ctx) (line : Nat) (st : St) (name : String) (e : Ent) (refuse : Option String)
+    (h : (lookup st.members name).isSome = true) :
+    pushIf c line st name e refuse = err c "duplicate-definition" line := by
+  unfold pushIf; simp [h]
+
+/-- … and a free name in a scope that refuses the member is reported with the scope's rule -/
+theorem C08_placement_when_free (c : Ctx) (line : Nat) (st : St) (name : String) (e : Ent) (r : String)
+    (h : (lookup st.members name).isSome = false) :
+    pushIf c line st name e (some r) = err c r line := by
+  unfold pushIf; simp [h]
+
+/-- the same order on texts (kernel evaluations; the compiler gives the same three answers) -/
+theorem C08_text_examples_order :
+    Parse.textVerdict "proto a\nmessage M {\n  message D { }\n  type D = uint3\n}\n" = "duplicate-definition@4" ∧
+    Parse.textVerdict "proto a\nmessage M {\n  type D = uint3\n}\n" = "alias-in-message@3" ∧
+    Parse.textVerdict "proto a\nenum E : uint3 {\n  A = 0\n  option A = 1\n}\n" = "duplicate-definition@4" := by
+  refine ⟨?_, ?_, ?_⟩ <;> decide +kernel
+
 /-- a verdict that names a rule is never the word `accept` (every such verdict contains `@`) -/
 theorem verdict_ne_accept (r l : String) : r ++ "@" ++ l ≠ "accept" := by
   intro h
